@@ -428,6 +428,8 @@ func (ev *Eval) ident(name string) TV {
 	case "now0":
 		// the ghost clock when the function was entered (in concurrent mode old(now) is the clock at the last acquisition)
 		return TV{T: ev.ex.vc.comp("CLK", "Int"), Ty: vtInt}
+	case "timercount":
+		return TV{T: ev.ex.get(ev.state(), "TMRN", "Int"), Ty: vtInt}
 	case "docount":
 		return TV{T: ev.ex.get(ev.state(), "DOCNT", "Int"), Ty: vtInt}
 	case "dokey":
@@ -884,6 +886,14 @@ func (ev *Eval) call(e ECall) TV {
 		ev.vc().declareOnce("str:cyc", `(declare-fun str_cyc (Str Int) Int)
 (assert (forall ((s Str) (i Int)) (! (=> (and (<= 0 i) (< i (slen s))) (= (str_cyc s i) (select (sbytes s) i))) :pattern ((str_cyc s i)))))`)
 		return TV{T: "(str_cyc " + x.T + " " + i.T + ")", Ty: goVT(types.Typ[types.Uint8])}
+	case "timerdue":
+		return TV{T: sSel(ev.ex.get(ev.state(), "TMRDUE", "(Array Int Int)"), arg(0).T), Ty: vtInt}
+	case "timerfn":
+		return TV{T: sSel(ev.ex.get(ev.state(), "TMRFN", "(Array Int Int)"), arg(0).T), Ty: vtInt}
+	case "timeron":
+		return TV{T: sSel(ev.ex.get(ev.state(), "TMRON", "(Array Int Bool)"), arg(0).T), Ty: vtBool}
+	case "timens":
+		return TV{T: ev.ex.timeNanos(arg(0).T), Ty: vtInt}
 	case "raw":
 		// raw(s, e): the element s[e] addressed by plain arithmetic (off+e) instead of the ix symbol, so that a
 		// quantifier triggered on s[k] does not re-trigger on the terms its own body creates (e.g. s[(k-1)/2])
